@@ -86,6 +86,7 @@ pub mod wallclock {
 pub fn generate(scn: &dyn Scenario, rng: &mut Prng, tier: Tier) -> Spec {
     let mut spec = scn.generate(rng, tier);
     spec.generic = rng.chance(1, 4);
+    spec.place = rng.below(4) as u8;
     if spec.kind == Some(crate::gens::Kind::Jitter) && matches!(scn.id(), "C05" | "C12" | "C14" | "C16" | "C17") && rng.chance(1, 10) {
         // real time flies while the code under test runs: 1 ms, 0.3 s, 1.5 s or an hour per clock reading
         spec.wall_step_ms = *rng.pick(&[1u64, 300, 1_500, 3_600_000]);
@@ -99,6 +100,7 @@ pub fn generate(scn: &dyn Scenario, rng: &mut Prng, tier: Tier) -> Spec {
 
 pub fn execute_guarded(scn: &dyn Scenario, spec: &Spec, st: &mut Stats) -> RunEnd {
     crate::gens::set_call_generic(spec.generic);
+    crate::gens::set_place(spec.place);
     if spec.generic {
         st.count("probe:generic_call_sites");
     }
